@@ -71,10 +71,26 @@ pub struct TcpSocketImpl {
     socket: net::TcpStream,
     /// The address of the remote host.
     address: SocketAddr,
+    /// Connection id in the virtual network (verification builds only).
+    #[cfg(gamedig_verif)]
+    verif_conn: Option<(u64, Option<std::os::unix::net::UnixStream>)>,
 }
 
 impl Socket for TcpSocketImpl {
     fn new(address: &SocketAddr, timeout_settings: &Option<TimeoutSettings>) -> GDResult<Self> {
+        #[cfg(gamedig_verif)]
+        if let Some(conn) = crate::verif_hook::open(true, address, timeout_settings) {
+            let conn = conn?;
+            let (stream, peer) = crate::verif_hook::stand_in_stream().map_err(|e| SocketConnect.context(e))?;
+            let socket = Self {
+                socket: stream,
+                address: *address,
+                verif_conn: Some((conn, Some(peer))),
+            };
+            socket.apply_timeout(timeout_settings)?;
+            return Ok(socket);
+        }
+
         let socket = TimeoutSettings::get_connect_or_default(timeout_settings).map_or_else(
             || net::TcpStream::connect(address),
             |timeout| net::TcpStream::connect_timeout(address, timeout),
@@ -83,6 +99,8 @@ impl Socket for TcpSocketImpl {
         let socket = Self {
             socket: socket.map_err(|e| SocketConnect.context(e))?,
             address: *address,
+            #[cfg(gamedig_verif)]
+            verif_conn: None,
         };
 
         socket.apply_timeout(timeout_settings)?;
@@ -99,11 +117,21 @@ impl Socket for TcpSocketImpl {
     }
 
     fn send(&mut self, data: &[u8]) -> GDResult<()> {
+        #[cfg(gamedig_verif)]
+        if let Some((conn, _)) = &self.verif_conn {
+            return crate::verif_hook::send(*conn, data);
+        }
+
         self.socket.write(data).map_err(|e| PacketSend.context(e))?;
         Ok(())
     }
 
     fn receive(&mut self, size: Option<usize>) -> GDResult<Vec<u8>> {
+        #[cfg(gamedig_verif)]
+        if let Some((conn, _)) = &self.verif_conn {
+            return crate::verif_hook::receive(*conn, true, size, DEFAULT_PACKET_SIZE);
+        }
+
         let mut buf = Vec::with_capacity(size.unwrap_or(DEFAULT_PACKET_SIZE));
         self.socket
             .read_to_end(&mut buf)
@@ -124,15 +152,26 @@ pub struct UdpSocketImpl {
     socket: net::UdpSocket,
     /// The address of the remote host.
     address: SocketAddr,
+    /// Connection id in the virtual network (verification builds only).
+    #[cfg(gamedig_verif)]
+    verif_conn: Option<u64>,
 }
 
 impl Socket for UdpSocketImpl {
     fn new(address: &SocketAddr, timeout_settings: &Option<TimeoutSettings>) -> GDResult<Self> {
         let socket = net::UdpSocket::bind("0.0.0.0:0").map_err(|e| SocketBind.context(e))?;
 
+        #[cfg(gamedig_verif)]
+        let verif_conn = match crate::verif_hook::open(false, address, timeout_settings) {
+            None => None,
+            Some(conn) => Some(conn?),
+        };
+
         let socket = Self {
             socket,
             address: *address,
+            #[cfg(gamedig_verif)]
+            verif_conn,
         };
 
         socket.apply_timeout(timeout_settings)?;
@@ -149,6 +188,11 @@ impl Socket for UdpSocketImpl {
     }
 
     fn send(&mut self, data: &[u8]) -> GDResult<()> {
+        #[cfg(gamedig_verif)]
+        if let Some(conn) = self.verif_conn {
+            return crate::verif_hook::send(conn, data);
+        }
+
         self.socket
             .send_to(data, self.address)
             .map_err(|e| PacketSend.context(e))?;
@@ -157,6 +201,11 @@ impl Socket for UdpSocketImpl {
     }
 
     fn receive(&mut self, size: Option<usize>) -> GDResult<Vec<u8>> {
+        #[cfg(gamedig_verif)]
+        if let Some(conn) = self.verif_conn {
+            return crate::verif_hook::receive(conn, false, size, DEFAULT_PACKET_SIZE);
+        }
+
         let mut buf: Vec<u8> = vec![0; size.unwrap_or(DEFAULT_PACKET_SIZE)];
         let (number_of_bytes_received, _) = self
             .socket
